@@ -484,8 +484,10 @@ var smallInts = []string{"1", "2", "3", "5", "7", "10", "010", "60"}
 func (s *sg) constInt(d int) *Expr {
 	g := s.eg()
 	if d <= 0 || s.pick(3, "ciLeaf") == 0 {
-		if v := g.pickVar("cint"); v != nil {
-			return v
+		if s.law != "tick" { // tick law: the value must stay non-zero (T1), vars may hold negative numbers
+			if v := g.pickVar("cint"); v != nil {
+				return v
+			}
 		}
 		return &Expr{K: "int", V: rapid.SampledFrom(smallInts).Draw(s.t, "ci")}
 	}
@@ -534,10 +536,17 @@ func (s *sg) constDur(d int) *Expr {
 	case 1:
 		return g.paren(&Expr{K: "bin", Op: "-", A: []*Expr{s.constDur(d - 1), s.constDur(d - 1)}})
 	case 2:
-		if s.pick(2, "cdSide") == 0 {
-			return g.paren(&Expr{K: "bin", Op: "*", A: []*Expr{s.constInt(d - 1), s.constDur(d - 1)}})
+		// small factors on a literal only: the value must not overflow int64 nanoseconds
+		f := &Expr{K: "int", V: rapid.SampledFrom([]string{"2", "3", "5", "010"}).Draw(s.t, "cdMul")}
+		l := g.durLit()
+		if strings.HasPrefix(l.V, "1000") {
+			l.V = l.V[3:] + "" // 1000<unit> -> 0<unit>? keep it small instead
+			l.V = "9" + strings.TrimLeft(l.V, "0")
 		}
-		return g.paren(&Expr{K: "bin", Op: "*", A: []*Expr{s.constDur(d - 1), s.constInt(d - 1)}})
+		if s.pick(2, "cdSide") == 0 {
+			return g.paren(&Expr{K: "bin", Op: "*", A: []*Expr{f, l}})
+		}
+		return g.paren(&Expr{K: "bin", Op: "*", A: []*Expr{l, f}})
 	default:
 		return g.paren(&Expr{K: "bin", Op: "/", A: []*Expr{s.constDur(d - 1), {K: "int", V: rapid.SampledFrom(smallInts).Draw(s.t, "cdDiv")}}})
 	}
